@@ -49,12 +49,13 @@ type Op struct {
 
 // Case is a configuration plus a history.
 type Case struct {
-	ID   int64   `json:"id"`
-	Proj []bool  `json:"proj"`          // per channel: has projectors
-	Base int     `json:"base"`          // initial BasePath: 0 empty, 1, 2
-	Pre  [][]int `json:"pre,omitempty"` // numbered entries that already exist under base 1 / base 2 (value >= 10000: a plain file named value-10000)
-	Map  int     `json:"map"`           // -1 no map, else number of pixels in the loaded map
-	Ops  []Op    `json:"ops"`
+	ID    int64   `json:"id"`
+	Proj  []bool  `json:"proj"`            // per channel: has projectors
+	Base  int     `json:"base"`            // initial BasePath: 0 empty, 1, 2
+	Pre   [][]int `json:"pre,omitempty"`   // numbered entries that already exist under base 1 / base 2 (value >= 10000: a plain file named value-10000)
+	Map   int     `json:"map"`             // -1 no map, else number of pixels in the loaded map
+	Fault bool    `json:"fault,omitempty"` // fault stream: after the ops, break the experiment-state file and STOP
+	Ops   []Op    `json:"ops"`
 }
 
 // Rep is the projection of ComputeWritingState().
@@ -482,6 +483,67 @@ func (s *Session) Label(o Op) ReqObs {
 		ob.Msg = false
 	}
 	return ob
+}
+
+// FaultObs is what is seen after a STOP issued while the experiment-state file cannot be written.
+type FaultObs struct {
+	Writers [][3]bool
+	Open    int // channel data files (not side files) still open below the scratch root
+	Stored  bool
+	Reply   string
+}
+
+// FaultStop closes the experiment-state file behind the writer's back, issues STOP, then publishes one record
+// to every channel. Returns nil when writing is not active (no such file to break).
+func (s *Session) FaultStop() *FaultObs {
+	if !s.Reported().Active || !s.B.Source().VerifBreakExperimentStateFile() {
+		return nil
+	}
+	var reply bool
+	err, hung := answered(func() error {
+		return s.RPC.SC.WriteControl(&dastard.WriteControlConfig{Request: "STOP"}, &reply)
+	})
+	f := &FaultObs{Writers: s.Writers()}
+	if hung {
+		f.Reply = "never answered"
+		f.Open = -1
+		return f
+	}
+	if err != nil {
+		f.Reply = err.Error()
+	}
+	ents, _ := os.ReadDir("/proc/self/fd")
+	for _, e := range ents {
+		t, err := os.Readlink(filepath.Join("/proc/self/fd", e.Name()))
+		if err == nil && strings.HasPrefix(t, s.Root+"/") && !strings.HasSuffix(t, "_experiment_state.txt") &&
+			!strings.HasSuffix(t, "_external_trigger.bin") && !strings.HasSuffix(t, "_data_drop.txt") {
+			f.Open++
+		}
+	}
+	flushAll := func() {
+		for i := 0; i < s.B.VerifNchan(); i++ {
+			s.B.VerifDsp(i).VerifPublisher().Flush()
+		}
+	}
+	flushAll()
+	before := s.snapshot()
+	for ch := 0; ch < s.B.VerifNchan(); ch++ {
+		s.frame++
+		rec := dastard.VerifRecord{Chan: ch, Frame: s.frame, TimeNs: 1700000000000000000 + s.frame*1000,
+			Pre: NPre, Data: make([]uint16, NSamp), ModelCoefs: make([]float64, NBases)}
+		if err := s.B.VerifDsp(ch).VerifPublish([]dastard.VerifRecord{rec}); err != nil {
+			f.Stored = true
+		}
+	}
+	flushAll()
+	after := s.snapshot()
+	for p, sz := range after {
+		if old, ok := before[p]; !ok || old != sz {
+			f.Stored = true
+		}
+	}
+	s.B.Messages()
+	return f
 }
 
 // ---- files ----
